@@ -57,6 +57,42 @@ var _ net.Conn = (*scriptConn)(nil)
 type schedWorld struct {
 	*simWorld
 	batches map[int][][]*table.Path // per bot: batches drained from the peer's outgoing queue
+	cancels map[*peer]context.CancelFunc // FSM contexts whose cancellation is deferred to teardown
+	stopped map[*peer]bool
+}
+
+// freeze defers the cancellation of the peers' FSM goroutines (parked in Active, never used by the
+// harness) to teardown: stopFSM during the scheduled phase must not wake a goroutine the explorer
+// does not control. That the FSM was asked to stop is recorded.
+func (w *schedWorld) freeze() {
+	if w.stopped == nil {
+		w.stopped = map[*peer]bool{}
+	}
+	for _, b := range w.bots {
+		p := w.peer(b)
+		if p == nil || p.fsm.h == nil {
+			continue
+		}
+		if w.cancels == nil {
+			w.cancels = map[*peer]context.CancelFunc{}
+		}
+		pp := p
+		w.cancels[pp] = p.fsm.h.ctxCancel
+		p.fsm.h.ctxCancel = func() { w.stopped[pp] = true }
+	}
+}
+
+// thaw gives the peers their real cancel functions back; those whose FSM was asked to stop during the
+// scheduled phase are stopped now.
+func (w *schedWorld) thaw() {
+	for p, c := range w.cancels {
+		p.fsm.h.ctxCancel = c
+		if w.stopped[p] {
+			c()
+		}
+	}
+	w.cancels = nil
+	synctest.Wait()
 }
 
 func newSchedWorld(t *testing.T) *schedWorld {
@@ -102,7 +138,12 @@ func (w *schedWorld) establish(b *simBot) {
 
 // receive runs the peer's real receive loop over the given messages (then EOF).
 func (w *schedWorld) receive(b *simBot, msgs ...*bgp.BGPMessage) {
-	p := w.peer(b)
+	w.receiveOn(w.peer(b), b, msgs...)
+}
+
+// receiveOn is receive for a peer object captured earlier (the receive goroutine of a session holds
+// its own reference; the peer may have been removed from the configuration meanwhile).
+func (w *schedWorld) receiveOn(p *peer, b *simBot, msgs ...*bgp.BGPMessage) {
 	b.mu.Lock()
 	opts := b.opts
 	b.mu.Unlock()
@@ -216,6 +257,7 @@ type schedExec struct {
 	Panics   []string
 	CapHit   bool
 	Outcome  string
+	Foreign  int
 }
 
 // schedRunOne executes the scenario once under the given choice prefix.
@@ -230,11 +272,13 @@ func schedRunOne(t *testing.T, sc *schedScenario, prefix []int, filter func(stri
 			}
 			func() {
 				defer func() { recover() }()
+				w.thaw()
 				w.stop(true)
 			}()
 		}()
 		threads := sc.Setup(w)
 		w.drain()
+		w.freeze()
 		s = sched.New(prefix)
 		s.Filter = filter
 		for _, th := range threads {
@@ -246,6 +290,10 @@ func schedRunOne(t *testing.T, sc *schedScenario, prefix []int, filter func(stri
 		x.Diverged = s.Diverged
 		x.Panics = s.Panics()
 		x.CapHit = s.CapHit
+		if s.Foreign > 0 {
+			w.stat("foreign-goroutine-ops")
+			x.Foreign = s.Foreign
+		}
 		if x.Deadlock == "" && len(x.Panics) == 0 {
 			w.drain()
 			sc.Check(w)
@@ -602,4 +650,12 @@ func (w *schedWorld) settleSetup() {
 		}
 		w.batches[i] = nil
 	}
+}
+
+// c01SchedBots adds n eBGP bots (peers parked in Active, to be established by the harness).
+func c01SchedBots(w *schedWorld, n int) {
+	for i := 0; i < n; i++ {
+		w.addBot(simBotKinds['e'](i))
+	}
+	w.advance(time.Second)
 }
